@@ -91,8 +91,25 @@ RespExplained(e) ==
      THEN {o \in Step(mem, ro, op, G) : RespMatch(op, o.resp, e.res)}
      ELSE {}
 DiskOk(m, e) == \A a \in DOMAIN mem : DOMAIN m[a] = Rng(e.disk[a])
+\* C06: the images storage went through during the operation (one after each storage write): a crash
+\* at that point leaves every id either as it was before the operation or as it is after it, so only
+\* ids the operation changes can differ; the last image is exactly the state after the operation.
+ImageOk(img, pre, post) ==
+  \A a \in DOMAIN pre :
+    \A id \in DOMAIN img[a] \cup DOMAIN pre[a] \cup DOMAIN post[a] :
+      IF id \in DOMAIN img[a]
+      THEN \/ id \in DOMAIN pre[a] /\ Norm(img[a][id]) = pre[a][id].body
+           \/ id \in DOMAIN post[a] /\ Norm(img[a][id]) = post[a][id].body
+      ELSE id \notin DOMAIN pre[a] \/ id \notin DOMAIN post[a]
+FinalImageOk(img, post) ==
+  \A a \in DOMAIN post : /\ DOMAIN img[a] = DOMAIN post[a]
+                         /\ \A id \in DOMAIN post[a] : Norm(img[a][id]) = post[a][id].body
+CrashOk(e, post) ==
+  /\ \A k \in DOMAIN e.crashes : ImageOk(e.crashes[k], mem, post)
+  /\ Len(e.crashes) > 0 => FinalImageOk(e.crashes[Len(e.crashes)], post)
+
 \* ... and whose state agrees with the logged storage content
-Explained(e) == {o \in RespExplained(e) : DiskOk(o.mem, e)}
+Explained(e) == {o \in RespExplained(e) : DiskOk(o.mem, e) /\ CrashOk(e, o.mem)}
 
 \* sys.System: with existence checking on, a location that was never created
 \* answers not-found to every request and is not created by it; CreateLocation
@@ -135,13 +152,22 @@ NextReset(i) ==
 
 IsSysLevel(e) == e.op = "CreateLocation" \/ Uncreated(e) \/ (impl.check /\ e.op = "Clear")
 
+\* C06: a failing storage call makes the operation report an error; what memory and storage hold
+\* afterwards is not specified, so the driver ends the trace there
+AcceptFault(e) ==
+  /\ e.fault
+  /\ e.res.c # "ok"
+  /\ UNCHANGED <<mem, ro, impl>> /\ l' = l + 1
+
 Accept(e) ==
+  /\ ~e.fault
   /\ ~IsSysLevel(e)
   /\ Explained(e) # {}
   /\ \E o \in Explained(e) : mem' = o.mem /\ ro' = o.ro
   /\ l' = l + 1 /\ UNCHANGED impl
 
 AcceptSys(e) ==
+  /\ ~e.fault
   /\ IsSysLevel(e)
   /\ \E o \in SysOutcomes(e) : mem' = o.mem /\ ro' = o.ro /\ impl' = [impl EXCEPT !.created = o.created]
   /\ l' = l + 1
@@ -155,6 +181,7 @@ ExplainedDev(e) ==
         RespMatch(op, o.resp, e.res) /\ \A a \in DOMAIN mem : DOMAIN o.mem[a] = disk[a]}
 
 AcceptDev(e) ==
+  /\ ~e.fault
   /\ ~IsSysLevel(e)
   /\ Explained(e) = {} /\ ExplainedDev(e) # {}
   /\ \E o \in ExplainedDev(e) : /\ mem' = o.mem /\ ro' = o.ro
@@ -163,7 +190,8 @@ AcceptDev(e) ==
 
 \* a line nothing explains: report it and go on with the next trace
 Reject(e) ==
-  /\ IF IsSysLevel(e) THEN SysOutcomes(e) = {} ELSE Explained(e) = {} /\ ExplainedDev(e) = {}
+  /\ IF e.fault THEN e.res.c = "ok"
+     ELSE IF IsSysLevel(e) THEN SysOutcomes(e) = {} ELSE Explained(e) = {} /\ ExplainedDev(e) = {}
   /\ PrintT(<<"REJECT", l, IF IsSysLevel(e) THEN <<"system level", impl>> ELSE Expected(e)>>)
   /\ TLCSet(2, TLCGet(2) \cup {l})
   /\ mem' = <<>> /\ ro' = <<>> /\ impl' = NoImpl
@@ -175,6 +203,7 @@ Next ==
      \/ Trace[l].ev = "op" /\ Accept(Trace[l])
      \/ Trace[l].ev = "op" /\ AcceptDev(Trace[l])
      \/ Trace[l].ev = "op" /\ AcceptSys(Trace[l])
+     \/ Trace[l].ev = "op" /\ AcceptFault(Trace[l])
      \/ Trace[l].ev = "op" /\ Reject(Trace[l])
 
 Spec == Init /\ [][Next]_vars
